@@ -252,6 +252,12 @@ def scenario(ctx, rng, j):
                 seeds[n], list(reversed(certs)), fields, f'{g:02x}')
             judge(ctx, f'chain:flag-not-permitted#{n}', chain_lock, w, pks[0],
                   certs, fields, allowed, t, now2, True, True)
+            if n == 1 and len(certs) == 1:
+                lock1 = t_.make_delegate_key_lock(pks[0], a_hex)
+                w1 = t_.make_delegate_key_witness(seeds[n], certs[0], fields,
+                                                  f'{g:02x}')
+                judge(ctx, 'single:flag-not-permitted', lock1, w1, pks[0],
+                      certs, fields, allowed, t, now2, False, True)
         except BaseException:
             pass
     # covered field changed at check time
